@@ -95,7 +95,13 @@ func (d *day) CalcFamilyStartTime(segmentTime int64, familyTime int) int64 {
 
 // CalcFamilyEndTime calculates family end time based on family start time for day interval type
 func (d *day) CalcFamilyEndTime(familyStartTime int64) int64 {
-	return familyStartTime + timeutil.OneHour - 1
+	endTime := familyStartTime + timeutil.OneHour - 1
+	// a local day is not always a whole number of hours(time zone whose clock moves by 30 minutes),
+	// the last family of such a day ends with the day.
+	if segmentTime := d.CalcSegmentTime(endTime); segmentTime > familyStartTime {
+		return segmentTime - 1
+	}
+	return endTime
 }
 
 // CalcTimeWindows calculates the number of time window between start and end time for day interval type
